@@ -123,8 +123,10 @@ def ts_zones(t, v, acc=None):
         n = unlimb(v[1])
         if -30610224000 <= n < 253402300800:
             acc.add('text')
-        elif -62167219200 <= n < -30610224000:
-            acc.add('year0-999')
+        elif -62135596800 <= n < -30610224000:
+            acc.add('year1-999')
+        elif -62167219200 <= n < -62135596800:
+            acc.add('year0')
         elif n < -62167219200:
             acc.add('before-year0')
         else:
